@@ -10,7 +10,8 @@ RELATED = {"C01": ["C01", "C05", "C02", "C09"], "C02": ["C02", "C01", "C05", "C1
            "C13": ["C13", "C06", "C03"], "C14": ["C14", "C05", "C02"], "C15": ["C15", "C03", "C20"], "C17": ["C17", "C05", "C01"],
            "C18": ["C18", "C19", "C03"], "C19": ["C19", "C18"], "C20": ["C20", "C15", "C01"]}
 FULL = "--full" in sys.argv
-sys.argv = [a for a in sys.argv if a != "--full"]
+OWN = "--own" in sys.argv          # only the owning check of each change
+sys.argv = [a for a in sys.argv if a not in ("--full", "--own")]
 ids = sys.argv[1:] or sorted(d for d in os.listdir(os.path.join(HERE, "seeded")) if os.path.isdir(os.path.join(HERE, "seeded", d)))
 out_path = os.path.join(HERE, "seeded", "MATRIX.json")
 matrix = json.load(open(out_path)) if os.path.exists(out_path) else {}
@@ -21,11 +22,11 @@ for sid in ids:
         if subprocess.call(["git", "-C", root, "apply", os.path.join(HERE, "seeded", sid, "patch.diff")]) != 0:
             print(sid, "patch does not apply"); continue
         row = {}
-        for p in (ALL if FULL else RELATED[sid[:3].upper()]):
+        for p in (ALL if FULL else ([sid[:3].upper()] if OWN else RELATED[sid[:3].upper()])):
             env = dict(os.environ, VERIF_REPO_SRC=os.path.join(root, "src"), VERIF_NO_EVIDENCE="1")
             r = subprocess.run([os.path.join(HERE, "check"), p, "--tier", "quick"], cwd=HERE, env=env, stdout=subprocess.PIPE, stderr=subprocess.STDOUT, timeout=1800)
             row[p] = r.returncode
-        matrix[sid] = row
+        matrix[sid] = dict(matrix.get(sid, {}), **row) if OWN else row
         print(sid, " ".join("%s" % p for p in ALL if row.get(p) == 1), "| missed:", [p for p in ALL if row.get(p) == 0],
               "| harness:", [p for p in ALL if row.get(p) == 2], flush=True)
         json.dump(matrix, open(out_path, "w"), indent=1, sort_keys=True)
